@@ -60,18 +60,19 @@ def run(ctx):
 
     # ---------------- exhaustive grid on the implementation, and the same points through the model
     def mk(cname, ns, w, sp, fields):
-        x = NS[ns].asarray(np.arange(6.0).reshape(3, 2) + 0.25, dtype=nsutil.native_dtype(ns, w))
+        # values that are NOT exactly representable in binary32 (thirds, tenths): a detour through single precision shows
+        x = NS[ns].asarray(np.arange(6.0).reshape(3, 2) / 3.0 + 0.1, dtype=nsutil.native_dtype(ns, w))
         kw = {}
         if fields[0]:
-            kw["log_likelihood"] = [0.5, 1.0, 2.0]
+            kw["log_likelihood"] = [0.1, 1.0 / 3.0, 2.7]          # plain Python lists of Python floats
         if fields[1]:
-            kw["log_prior"] = [0.0, 0.5, 1.0]
+            kw["log_prior"] = [0.0, 0.7, 1.1]
         if fields[2]:
-            kw["log_q"] = [1.0, 1.0, 2.0]
+            kw["log_q"] = [1.3, 1.0, 2.0 / 7.0]
         if cname == "SMCSamples":
-            kw.update(beta=0.5, log_evidence=-3.5, log_evidence_error=0.25)
+            kw.update(beta=0.5, log_evidence=-1234.5678901234567, log_evidence_error=0.1)
         if cname == "Samples" and not all(fields):
-            kw.update(log_evidence=-7.5, log_evidence_error=0.125)      # a weightless set carrying an evidence: every SMC result
+            kw.update(log_evidence=-1234.5678901234567, log_evidence_error=0.1)      # a weightless set carrying an evidence: every SMC result
         d = None if sp == "none" else (w if sp == "str" else nsutil.native_dtype(ns, w))
         return classes[cname](x, xp=NS[ns], dtype=d, **kw)
 
@@ -91,6 +92,17 @@ def run(ctx):
             continue
         sx = np.asarray(nsutil.to_list(s.x), float)
         w0 = nsutil.dtype_name(s.x.dtype)
+        if w0 == "float64":
+            for fname_, want_ in (("log_likelihood", [0.1, 1.0 / 3.0, 2.7]), ("log_prior", [0.0, 0.7, 1.1]), ("log_q", [1.3, 1.0, 2.0 / 7.0])):
+                got_ = getattr(s, fname_)
+                if got_ is not None and not np.array_equal(np.asarray(nsutil.to_list(got_), float), np.asarray(want_)):
+                    ctx.violation(f"construct:precision:{cname}:{a}", f"{cname}(xp={a}, float64) built from Python floats holds {fname_} = {nsutil.to_list(got_)} (given {want_})",
+                                  {"cls": cname, "ns": a, "spelling": sp, "field": fname_})
+                    break
+            given_le = -1234.5678901234567 if (cname == "SMCSamples" or (cname == "Samples" and not all(fields))) else None
+            if given_le is not None and (s.log_evidence is None or nsutil.to_float(s.log_evidence) != given_le):
+                ctx.violation(f"construct:precision:log_evidence:{cname}:{a}", f"{cname}(xp={a}, float64, log_evidence={given_le!r}) holds {s.log_evidence!r}",
+                              {"cls": cname, "ns": a, "spelling": sp})
         for (tsp, tw) in tgt_spells:
             npts += 1
             d2 = None if tsp == "none" else (tw if tsp == "str" else nsutil.native_dtype(b, tw))
